@@ -19,7 +19,10 @@ PID = 'C02'
 LEAN_TARGETS = ['CfVerif.Props.C02']
 PROPS_MODULES = ['CfVerif.Props.C02']
 DRIVER = 'Driver/C02.lean'
-REQUIRED_THEOREMS = []
+REQUIRED_THEOREMS = ['CfVerif.C02.' + n for n in (
+    'trace_wf', 'connected_only_when_tables_complete', 'fully_only_when_all_values', 'sync_open_returns',
+    'fault_reaches_disconnected', 'link_error_outputs', 'reconnectable', 'repaired_D1', 'repaired_D21',
+    'sync_open_hangs_counterexample', 'stale_fetcher_counterexample')]
 TRUSTED = ['harness/corr/c02.py extractor + correspondence', 'harness/sim/crazyflie_device.py (simulated firmware, environment model)',
            'harness/vsched (virtual scheduler; search/acceptance only)']
 ASSUMPTIONS = []
